@@ -1,9 +1,11 @@
 /-
 M9 — sheets and the three offline workbook formats (C14).
 
-A sheet is a name, a header list and a grid of strings.  The byte formats (csv / openpyxl /
-json) are library code and are NOT modelled: the model starts where the libraries hand a grid
-to Python and follows, line by line,
+A sheet is a name, a header list and a grid of strings.  The XLSX and JSON byte formats
+(openpyxl / json) are library code and are NOT modelled: for them the model starts where the
+libraries hand a grid to Python.  The CSV byte format IS modelled (`Rpft/Csv.lean`: `csv.writer`,
+text-mode line iteration, the `csv.reader` automaton, UTF-8) and composed here with tablib's record
+loop (`exportCsv` / `loadCsv` at the end of this file).  The model follows, line by line,
 
 * tablib `Dataset` bookkeeping that the readers go through (`width`, `_validate(row)`,
   `append`, the `headers` setter, `dict` getter `_package` and `dict` setter `_set_dict`),
@@ -15,6 +17,8 @@ to Python and follows, line by line,
 into `None`, so the two cannot be told apart on a `Dataset`).  Core Lean only.
 -/
 import Rpft.Str
+import Rpft.Csv
+import Rpft.JsonText
 namespace Rpft.Sheets
 open Rpft
 
@@ -218,5 +222,146 @@ def readCsv (name : Str) (records : List (List Str)) : Except SErr Sheet :=
 
 /-- the records of a sheet as the harness writes them with Python's `csv.writer` -/
 def toCsvRecords (s : Sheet) : List (List Str) := s.headers :: s.rows
+
+/-! ### CSV files: bytes ↔ sheet -/
+
+/-- `Dataset._package(dicts=False)`: the header record is there only when the Dataset has headers -/
+def packageRecords (s : Sheet) : List (List Str) :=
+  if s.headers.isEmpty then s.rows else s.headers :: s.rows
+
+/-- `sheet.table.export("csv")` (the text `sheets_to_csv` writes with `newline=""`, UTF-8) -/
+def exportCsv (s : Sheet) : Str := Csv.writeCsv (packageRecords s)
+
+def exportCsvBytes (s : Sheet) : ByteArray := Csv.encodeUtf8 (exportCsv s)
+
+inductive LoadErr
+  | csv (e : Csv.CsvErr)        -- `_csv.Error` / `UnicodeDecodeError` out of the reader
+  | sheet (e : SErr)            -- tablib refused a record
+deriving DecidableEq, Repr
+
+/-- `tablib.import_set(file, format="csv")` on the decoded text of the file -/
+def loadCsvText (name : Str) (text : Str) : Except LoadErr Sheet :=
+  match Csv.parseCsv text with
+  | .error e => .error (.csv e)
+  | .ok records =>
+    match readCsv name records with
+    | .ok s => .ok s
+    | .error e => .error (.sheet e)
+
+/-- `load_csv(path)`: `open(path, "r", encoding="utf-8", newline="")` + `tablib.import_set` -/
+def loadCsv (name : Str) (bytes : ByteArray) : Except LoadErr Sheet :=
+  match Csv.decodeUtf8 bytes with
+  | none => .error (.csv .decode)
+  | some text => loadCsvText name text
+
+/-! ### JSON files: bytes ↔ workbook (`to_json` + `cli.convert` out, `load_json` + `JSONSheetReader` in) -/
+
+section JsonFiles
+open Rpft.JsonText
+
+def jvsOfList : List JV → JVs
+  | [] => .nil
+  | x :: xs => .cons x (jvsOfList xs)
+
+def jmsOfList : List (Str × JV) → JMs
+  | [] => .nil
+  | (k, v) :: ms => .cons k v (jmsOfList ms)
+
+/-- a `table.dict` value as the JSON value `json.dumps` sees -/
+def contentJV : JContent → JV
+  | .objs rows => .arr (jvsOfList (rows.map (fun r => .obj (jmsOfList (r.map (fun kv => (kv.1, JV.str kv.2)))))))
+  | .lists rows => .arr (jvsOfList (rows.map (fun r => .arr (jvsOfList (r.map JV.str)))))
+
+/-- `to_json`: `book = {"meta": {"version": "0.1.0"}, "sheets": {name: sheet.table.dict …}}`
+(the sheets of a reader are the values of a dict: their names are distinct) -/
+def bookJV (w : Workbook) : JV :=
+  .obj (.cons "meta".toList (.obj (.cons "version".toList (.str "0.1.0".toList) .nil))
+    (.cons "sheets".toList (.obj (jmsOfList (w.map (fun s => (s.name, contentJV (toJson s)))))) .nil))
+
+/-- `json.dumps(book, ensure_ascii=False, indent=2)` -/
+def toJsonText (w : Workbook) : Str := dumps (bookJV w)
+
+/-- `cli.convert`: `export.write(bytes(content, "utf-8"))` -/
+def toJsonBytes (w : Workbook) : ByteArray := Csv.encodeUtf8 (toJsonText w)
+
+def strCells : JVs → Option (List Str)
+  | .nil => some []
+  | .cons (.str s) xs => (strCells xs).map (s :: ·)
+  | .cons _ _ => none
+
+def strMembers : JMs → Option (List (Str × Str))
+  | .nil => some []
+  | .cons k (.str v) ms => (strMembers ms).map ((k, v) :: ·)
+  | .cons _ _ _ => none
+
+def listRows : JVs → Option (List (List Str))
+  | .nil => some []
+  | .cons (.arr a) xs =>
+    match strCells a, listRows xs with
+    | some r, some rs => some (r :: rs)
+    | _, _ => none
+  | .cons _ _ => none
+
+def objRows : JVs → Option (List (List (Str × Str)))
+  | .nil => some []
+  | .cons (.obj m) xs =>
+    match strMembers m, objRows xs with
+    | some r, some rs => some (r :: rs)
+    | _, _ => none
+  | .cons _ _ => none
+
+/-- the values `table.dict = content` is modelled for: a list of objects / of lists, text cells
+(`Dataset._set_dict` looks at `pickle[0]` to choose) -/
+def contentOf : JV → Option JContent
+  | .arr .nil => some (.objs [])
+  | .arr (.cons (.obj m) rest) => (objRows (.cons (.obj m) rest)).map JContent.objs
+  | .arr (.cons (.arr a) rest) => (listRows (.cons (.arr a) rest)).map JContent.lists
+  | _ => none
+
+def jmLookup (k : Str) : JMs → Option JV
+  | .nil => none
+  | .cons k' v ms => if k' = k then some v else jmLookup k ms
+
+inductive JsonLoadErr
+  | decode                       -- UnicodeDecodeError
+  | json (e : DErr)              -- json.JSONDecodeError (or a value outside the model)
+  | shape                        -- no "sheets" object / a content that is not a list of text rows
+  | sheet (e : SErr)             -- tablib refused a row
+deriving DecidableEq, Repr
+
+/-- `for name, content in data["sheets"].items(): table.dict = content` -/
+def sheetsOfMembers : JMs → Except JsonLoadErr Workbook
+  | .nil => .ok []
+  | .cons name content rest =>
+    match contentOf content with
+    | none => .error .shape
+    | some c =>
+      match readJson name c with
+      | .error e => .error (.sheet e)
+      | .ok s =>
+        match sheetsOfMembers rest with
+        | .ok ss => .ok (s :: ss)
+        | .error e => .error e
+
+/-- text mode without `newline=`: CRLF and CR arrive as LF (`load_json` opens the file that way) -/
+def universalNewlines (text : Str) : Str := replace1 '\r' ['\n'] (replace2 '\r' '\n' ['\n'] text)
+
+def loadJsonText (text : Str) : Except JsonLoadErr Workbook :=
+  match loads text with
+  | .error e => .error (.json e)
+  | .ok (.obj top) =>
+    match jmLookup "sheets".toList top with
+    | some (.obj sheets) => sheetsOfMembers sheets
+    | _ => .error .shape
+  | .ok _ => .error .shape
+
+/-- `JSONSheetReader(filename)`: `load_json` (`open(path, "r", encoding="utf-8")` + `json.load`) and
+the loop over `data["sheets"]` -/
+def loadJson (bytes : ByteArray) : Except JsonLoadErr Workbook :=
+  match Csv.decodeUtf8 bytes with
+  | none => .error .decode
+  | some text => loadJsonText (universalNewlines text)
+
+end JsonFiles
 
 end Rpft.Sheets
